@@ -38,6 +38,11 @@ DIRECTED = [
     ("tp-schedule-during-shutdown",
      "tp nthr=1 lim=0 ovf=0 nsub=1 nt=1 dur=0 wait=1 yp=0 sp=0 seed=1 trig=99:0 "
      "rules=H:10:12:1:1,O:1:0:15:1,H:20:17:1:2,O:2:10:13:1"),
+    # overflow thread (created by the third iwtp_schedule while the only worker is busy) is held before its first lock
+    # until iwtp_shutdown has destroyed the pool
+    ("tp-overflow-thread-after-shutdown",
+     "tp nthr=1 lim=0 ovf=1 nsub=1 nt=3 dur=0 wait=1 yp=0 sp=0 seed=1 trig=99:0 gt=0:1 "
+     "rules=H:10:12:2:2,O:2:0:9:1,H:20:12:1:3,O:3:10:13:3,O:1:20:2:1,H:30:1:1:4,O:4:20:17:1"),
 ]
 
 
@@ -76,12 +81,19 @@ def gen_scenario(rng, tier):
         lim, blk, cb, nsub, nt, dur, wait, mix, yp, sp, seed, tk, tn)
 
 
+FATAL = {"n": 0}  # crashes/hangs seen in this run: after a few of them the remaining scenarios are not worth 25 s each
+
+
 def run_batch(exe, lines, env):
     """returns list of (output line or None, died-info) per scenario; restarts the harness after a crash/hang"""
     res = [None] * len(lines)
     i = 0
     errs = []
     while i < len(lines):
+        if FATAL["n"] >= 4:
+            for k in range(i, len(lines)):
+                res[k] = "SKIPPED"
+            break
         rc, out, err = vlib.run_lines(exe, "\n".join(lines[i:]) + "\n", timeout=90 + 30 * (len(lines) - i), env=env)
         if "ThreadSanitizer" in err:
             errs.append(err)
@@ -93,7 +105,9 @@ def run_batch(exe, lines, env):
         if i >= len(lines):
             break
         if outl and (outl[-1].startswith("CRASH") or outl[-1].startswith("HANG")):
+            FATAL["n"] += 1
             continue  # that scenario has its line; go on with the next one
+        FATAL["n"] += 1
         res[i] = "DIED rc=%d %s" % (rc, err[-300:].replace("\n", " "))
         i += 1
     return res, errs
@@ -172,6 +186,53 @@ def oracle(p, r):
                 if a["retst"] < b["callst"] and not a["runst"] < b["runst"]:
                     v.append("task %d was submitted before task %d but ran after it" % (a["id"], b["id"]))
     return v[:4]
+
+
+def monitor(p, r):
+    """trace-level oracle for `a worker never stays parked while the queue is non-empty` (needs the source hook for the
+    enqueue/dequeue events).  Bookkeeping on the real event trace only: queue length, which pool threads are parked on
+    `cond` without a wake-up having been issued since, and whether the mutex has just been released."""
+    if r["hdr"].get("hook") != "1" or r["tag"] != "R":
+        return []
+    stw = p["kind"] == "stw"
+    nw = 1 if stw else int(p.get("nthr", "1"))
+    live = set(range(nw))
+    parked, pending, qlen = set(), 0, 0
+    api = {}
+    freed = False
+    for i, tok in enumerate(r["trace"]):
+        f = [int(x) for x in tok.split(":")]
+        t, k = f[0], f[1]
+        a = f[2] if len(f) > 2 else 0
+        if k == K["FREE"]:
+            freed = True
+        elif freed and k in (K["LOCK"], K["WAKE"]) and (t < 10 or t >= 30):
+            # not a caller overlapping shutdown (that is the caller's contract) but a thread of the executor itself
+            return ["trace-level: thread %d created by the executor takes the executor's mutex at event %d (%s) after shutdown "
+                    "has destroyed and freed the executor (use after free inside the library)" % (t, i, tok)]
+        if k == K["CALL"]:
+            api[t] = (a, f[4] if len(f) > 4 else 0)
+        elif k == K["ENQ"]:
+            qlen = 1 if (stw and api.get(t, (0, 0))[0] == 1) else qlen + 1
+        elif k in (K["DEQ"], K["DISCARD"]):
+            qlen = max(0, qlen - 1) if not (k == K["DISCARD"] and api.get(t, (0, 0))[0] == 1) else qlen
+        elif k == K["BCAST"] and a == 0:
+            parked.clear(); pending = 0
+            if api.get(t, (9, 0)) == (3, 0):
+                qlen = 0  # non-waiting shutdown drops the queue
+        elif k == K["SIGNAL"] and a == 0:
+            if parked:
+                pending += 1
+        elif k == K["WAIT"] and a == 0 and t in live:
+            parked.add(t)
+        elif k == K["WAKE"] and a == 0:
+            parked.discard(t); pending = max(0, pending - 1)
+        elif k == K["EXIT"]:
+            live.discard(t); parked.discard(t)
+        if k in (K["UNLOCK"], K["WAIT"]) and qlen > 0 and live and live <= parked and pending == 0:
+            return ["trace-level: after event %d (%s) the queue holds %d task(s) while every worker thread is parked on the "
+                    "condition variable and no wake-up has been issued (lost wake-up)" % (i, tok, qlen)]
+    return []
 
 
 def model_line(p, r, variant=2):
@@ -262,7 +323,7 @@ def evaluate(run, exe, model, named, env, label):
         if r["hdr"].get("logovf") == "1":
             run.notes.append("event log overflow in `%s`" % l)
             continue
-        viol = oracle(p, r)
+        viol = oracle(p, r) or monitor(p, r)
         for note in viol[:1]:
             nviol += 1
             run.violation({"scenario": l, "name": name, "kind": p["kind"], "outcome": results[i][:4000] if results[i] else None,
@@ -336,7 +397,7 @@ def check(run):
     proofs_ok = run.proofs()
     exe, env = harness(run)
     model = vlib.build_model("exec")
-    N = 220 if run.tier == "quick" else 4000
+    N = 220 if run.tier == "quick" else 300000
     if not proofs_ok:
         N *= 10
     named = list(DIRECTED)
@@ -348,11 +409,17 @@ def check(run):
                 if l and not l.startswith("#") and l not in [x for _, x in named]:
                     named.append(("corpus:" + cf, l))
     nv = evaluate(run, exe, model, named, env, "directed+corpus")
-    rnd = [(None, gen_scenario(rng, run.tier)) for _ in range(N)]
-    nv += evaluate(run, exe, model, rnd, env, "random")
-    if run.broken and not nv:
-        more = [(None, gen_scenario(rng, run.tier)) for _ in range(N * 9)]
-        evaluate(run, exe, model, more, env, "random-x10")
+    done_n, rounds = 0, 0
+    while done_n < N and nv < 5:
+        k = min(10000, N - done_n)  # rounds keep the traces of at most 10000 scenarios in memory
+        rnd = [(None, gen_scenario(rng, run.tier)) for _ in range(k)]
+        nv += evaluate(run, exe, model, rnd, env, "random")
+        done_n += k
+        rounds += 1
+        if run.broken and not nv and rounds == 1:
+            N *= 10  # correspondence broken: search ten times as long for a failing input
+        if len(run.broken) > 50:
+            break
     return run.finish(
         level=LEVEL,
         rule="scenario = executor kind x queue limit {0,1,3} x blocking x discard callback x 1..8 submitters x tasks per submitter x "
@@ -374,13 +441,24 @@ def replay(run, path):
     if not line:
         print(json.dumps(r, indent=1)); return 1
     exe, env = harness(run)
+    model = vlib.build_model("exec")
     p = params(line)
     print("scenario:", line); print("recorded note:", r.get("note"))
     for attempt in range(25):
-        res, _ = run_batch(exe, [line], env)
+        FATAL["n"] = 0
+        res, errs = run_batch(exe, [line], env)
         o = res[0]
         rr = parse_result(o) if o else {"tag": "DIED", "hdr": {}, "trace": [], "tasks": []}
-        v = oracle(p, rr)
+        v = oracle(p, rr) or monitor(p, rr)
+        if not v and r.get("kind") == "tsan" and any("data race" in e for e in errs):
+            v = ["ThreadSanitizer data race: " + errs[0][-600:]]
+        if not v and rr["tag"] == "R":
+            rc, mout, _ = vlib.run_lines(model, model_line(p, rr) + "\n", timeout=120)
+            m = parse_model(mout[0] if mout else "")
+            if m.get("status") == "ok" and m.get("pending") not in ("-", None):
+                v = ["task(s) %s still queued after shutdown returned and all threads finished" % m.get("pending")]
+            elif m.get("status") != "ok":
+                print("attempt %d: trace is not a path of the model: %s" % (attempt + 1, (mout[0] if mout else "")[:200]))
         if v:
             print("attempt %d reproduces: %s" % (attempt + 1, "; ".join(v)))
             print("outcome:", (o or "")[:1500])
